@@ -152,6 +152,26 @@ Proof.
   - rewrite <- IH. reflexivity.
 Qed.
 
+Lemma ideal_app A B : ideal (A ++ B) = (ideal A + ideal B - 1)%Z.
+Proof. induction A as [|a A IH]; cbn [app ideal]; lia. Qed.
+(** a complete run without dead pop, newest symbol first: the count 1 + #S - #E is >= 1 before every symbol and 0 at the end *)
+Definition BALC (Yn : list Z) : Prop := ideal Yn = 0%Z /\ forall m, 1 <= m <= length Yn -> (1 <= ideal (skipn m Yn))%Z.
+
+(** the runs with the balance of every block, under the condition [NE] (= no split event was recorded) *)
+Inductive RUNS2 (opp : list (option nat)) (IP : nat -> Prop) (NE : Prop) : list bool -> list nat -> list nat -> list Z -> Prop :=
+| R2_nil : RUNS2 opp IP NE [] [] [] []
+| R2_run (b : bool) bits inits inits' P Y Pn Yn : RUNS2 opp IP NE bits inits P Y -> Pn <> [] -> length Pn = length Yn ->
+    (NE -> BALC Yn) ->
+    (if b then exists ic, inits' = ic :: inits /\ opp_at opp ic = Some (last Pn 0) /\ IP ic else inits' = inits) ->
+    RUNS2 opp IP NE (b :: bits) inits' (Pn ++ P) (Yn ++ Y).
+Lemma RUNS2_impl opp (IP IP' : nat -> Prop) (NE NE' : Prop) : (forall x, IP x -> IP' x) -> (NE' -> NE) ->
+  forall b i P Y, RUNS2 opp IP NE b i P Y -> RUNS2 opp IP' NE' b i P Y.
+Proof.
+  intros H HN b i P Y R. induction R as [|b bits inits inits' P Y Pn Yn R IH Np Ln Bl Hb]; [constructor|].
+  apply (R2_run opp IP' NE' b bits inits inits' P Y Pn Yn); auto.
+  destruct b; auto. destruct Hb as (ic & A1 & A2 & A3). exists ic. auto.
+Qed.
+
 Lemma RUNS_impl opp (IP IP' : nat -> Prop) : (forall x, IP x -> IP' x) -> forall b i P Y, RUNS opp IP b i P Y -> RUNS opp IP' b i P Y.
 Proof.
   intros H b i P Y R. induction R; [constructor|]. econstructor; eauto.
@@ -362,10 +382,25 @@ Qed.
 Definition GE (s : est) (e : option nat) : Prop :=
   exists x y, e = Some x /\ nth (x / 3) (vf s) false = false /\ opp_at opp x = Some y /\ nth (y / 3) (vf s) false = true /\
     split_symbol_on_face (f2s s) (y / 3) <> None.
-Definition CNT (n : Z) (s : est) : Prop := Z.of_nat (length (stack s)) = (ideal (syms s) + n)%Z.
-Definition KI (n : Z) (s : est) (c : nat) : Prop :=
+(** [PREF n L0 sy]: every earlier moment of the current run (the symbols [skipn m sy], at least [L0] of them) had a
+    non-empty stack; [CNT (n, L0) s]: the count, with the offset [n] and the number [L0] of symbols before the run *)
+Definition PREF (n : Z) (L0 : nat) (sy : list Z) : Prop :=
+  forall m, 1 <= m -> L0 + m <= length sy -> (1 <= ideal (skipn m sy) + n)%Z.
+Definition CNT (n : Z * nat) (s : est) : Prop :=
+  Z.of_nat (length (stack s)) = (ideal (syms s) + fst n)%Z /\ PREF (fst n) (snd n) (syms s).
+Lemma CNT_emit n s s' y : CNT n s -> stack s <> [] -> syms s' = y :: syms s ->
+  Z.of_nat (length (stack s')) = (Z.of_nat (length (stack s)) + delta y)%Z -> CNT n s'.
+Proof.
+  intros (A & B) Hne Hs Hl. unfold CNT. rewrite Hs. cbn [ideal]. split; [lia|].
+  intros m Hm Hln. cbn [length] in Hln. destruct m as [|m]; [lia|]. cbn [skipn].
+  destruct m as [|m].
+  - cbn [skipn]. destruct (stack s); [congruence|]. cbn [length] in A. lia.
+  - apply B; lia.
+Qed.
+
+Definition KI (n : Z * nat) (s : est) (c : nat) : Prop :=
   evs s = [] -> NoDup (tl (stack s)) /\ Forall (GE s) (tl (stack s)) /\ ~ In (Some c) (tl (stack s)) /\ CNT n s.
-Definition KO (n : Z) (s : est) : Prop :=
+Definition KO (n : Z * nat) (s : est) : Prop :=
   evs s = [] -> NoDup (stack s) /\ Forall (GE s) (tl (stack s)) /\
     (forall top r, stack s = top :: r -> exists x, top = Some x /\ nth (x / 3) (vf s) false = false) /\ CNT n s.
 
@@ -512,7 +547,7 @@ Proof.
       cbn [emit with_syms stack]. rewrite F2. split; auto.
       split; [apply Keep; auto; intros f; cbn [emit with_syms f2s]; rewrite (proj2 Ev2); auto|].
       split; [apply (NotIn K0 E0 r0 (next_c c)); auto; apply next_face|].
-      unfold CNT in *. cbn [emit with_syms stack syms]. rewrite F2, Sy2. cbn [ideal]. unfold delta. cbn. lia.
+      apply (CNT_emit n s _ 0%Z Kc St); [cbn [emit with_syms syms]; rewrite Sy2; reflexivity|cbn [emit with_syms stack]; rewrite F2; change (delta 0) with 0%Z; lia].
   - (* not C *)
 
     assert (FV : forall vfl o, length vfl = nf -> (forall x, o = Some x -> x < 3 * nf) ->
@@ -571,12 +606,13 @@ Proof.
         { apply (Keep _ K0 E2 NH); [cbn [with_stack emit with_syms vf]; rewrite D1, C1; auto|].
           intros f. cbn [with_stack emit with_syms f2s]. unfold s4, s3. rewrite !check_split_f2s, (proj2 Ev2). auto. }
         cbn [tl] in Kg'.
-        pose proof (K0 E2) as K0'. unfold CNT in K0'. rewrite Est in K0'. destruct K0' as (Kn & _ & _ & Kc). cbn [tl] in Kn.
+        destruct (K0 E2) as (Kn & _ & _ & Kc). rewrite Est in Kn. cbn [tl] in Kn.
         cbn [with_stack stack]. split; auto. split; [destruct r; [constructor|inversion Kg'; auto]|].
         split.
         { intros top0 r0 Q. rewrite Q in Kg'. inversion Kg' as [|e0 l0' (x & y & Q1 & Q2 & _) _ [Q3 Q4]]. exists x. split; auto. }
-        unfold CNT in *. cbn [with_stack emit with_syms stack syms length]. destruct P4 as [_ ->]. destruct P3 as [_ ->]. rewrite Sy2.
-        cbn [ideal length] in *. unfold delta. cbn. lia.
+        apply (CNT_emit n s _ 7%Z Kc); [rewrite Est; discriminate
+          |cbn [with_stack emit with_syms syms]; destruct P4 as [_ ->]; destruct P3 as [_ ->]; rewrite Sy2; reflexivity
+          |cbn [with_stack stack]; rewrite Est; cbn [length]; change (delta 7) with (-1)%Z; lia].
       * (* R *)
         destruct (Hlf eq_refl) as (l0 & El & Hl0). rewrite El in Ein.
         destruct (Glc l0 El) as (Gl & Nl).
@@ -599,7 +635,8 @@ Proof.
            cbn [emit with_syms stack]. rewrite C3, F2. split; auto.
            split; [apply (Keep _ K0 E2 NH); [cbn [emit with_syms vf]; auto|intros f; cbn [emit with_syms f2s]; unfold s3; rewrite check_split_f2s, (proj2 Ev2); auto]|].
            split; [apply (NotIn K0 E2 l0 (prev_c c)); auto; apply prev_face|].
-           unfold CNT in *. cbn [emit with_syms stack syms]. rewrite C3, F2. destruct P3 as [_ ->]. rewrite Sy2. cbn [ideal]. unfold delta. cbn. lia.
+           apply (CNT_emit n s _ 5%Z Kc St); [cbn [emit with_syms syms]; destruct P3 as [_ ->]; rewrite Sy2; reflexivity
+             |cbn [emit with_syms stack]; rewrite C3, F2; change (delta 5) with 0%Z; lia].
     + (* right not visited *)
       destruct (Hrf eq_refl) as (r0 & Er & Hr0).
       destruct (FV (vf s2) lc Lf2 Llt) as (lfv & Elf & Hlf & Hlt). rewrite Elf in Ein. cbn [ebind] in Ein.
@@ -631,7 +668,8 @@ Proof.
            cbn [emit with_syms stack]. rewrite C3, F2. split; auto.
            split; [apply (Keep _ K0 E2 NH); [cbn [emit with_syms vf]; auto|intros f; cbn [emit with_syms f2s]; unfold s3; rewrite check_split_f2s, (proj2 Ev2); auto]|].
            split; [apply (NotIn K0 E2 r0 (next_c c)); auto; apply next_face|].
-           unfold CNT in *. cbn [emit with_syms stack syms]. rewrite C3, F2. destruct P3 as [_ ->]. rewrite Sy2. cbn [ideal]. unfold delta. cbn. lia.
+           apply (CNT_emit n s _ 3%Z Kc St); [cbn [emit with_syms syms]; destruct P3 as [_ ->]; rewrite Sy2; reflexivity
+             |cbn [emit with_syms stack]; rewrite C3, F2; change (delta 3) with 0%Z; lia].
       * (* S *)
         destruct (Hlf eq_refl) as (l0 & El & Hl0).
         assert (SF : exists x, x < 3 * nf /\ nondeg x /\ vtx c2v x = vtx c2v c /\ x <> c /\
@@ -705,7 +743,7 @@ Proof.
         { apply (Keep _ K0 E0 NH); [exact Vf5|].
           intros f Nf. rewrite Fs5. cbn [split_symbol_on_face]. destruct (c / 3 =? f); [discriminate|exact Nf]. }
         cbn [tl] in Kg'.
-        pose proof (K0 E0) as K0'. unfold CNT in K0'. rewrite Est in K0'. destruct K0' as (Kn & _ & _ & Kc). cbn [tl] in Kn.
+        destruct (K0 E0) as (Kn & _ & _ & Kc). rewrite Est in Kn. cbn [tl] in Kn.
         destruct (Grc r0 Er) as (_ & Nr & _). destruct (Glc l0 El) as (_ & Nl).
         assert (Fc3 : split_symbol_on_face (f2s (with_stack s5 (rc :: lc :: r))) (c / 3) <> None).
         { rewrite Fs5. cbn [split_symbol_on_face]. rewrite Nat.eqb_refl. discriminate. }
@@ -722,8 +760,9 @@ Proof.
           apply (nbr_next_distinct c2v opp nf Hlen OK (next_c c) r0 r0); auto. rewrite next_next. exact El. }
         split; [constructor; auto|].
         split; [intros top0 rr Q; injection Q as <- _; exists r0; split; auto; cbn [with_stack vf s5 with_f2s]; rewrite Vf4; exact Hr0|].
-        unfold CNT in *. cbn [with_stack stack syms s5 with_f2s length]. rewrite Sy4. cbn [s3 with_nsplit emit with_syms syms]. rewrite Sy2.
-        cbn [ideal length] in *. unfold delta, TOPOLOGY_S. cbn. lia.
+        apply (CNT_emit n s _ 1%Z Kc); [rewrite Est; discriminate
+          |cbn [with_stack syms s5 with_f2s]; rewrite Sy4; cbn [s3 with_nsplit emit with_syms syms]; rewrite Sy2; reflexivity
+          |cbn [with_stack stack]; rewrite Est; cbn [length]; change (delta 1) with 1%Z; lia].
 Qed.
 
 Lemma inner_hist ifs : forall k s c s', Inv ifs s -> stack s <> [] -> stack_ok s -> SG s -> gate_ok (vv s) c ->
@@ -733,7 +772,7 @@ Lemma inner_hist ifs : forall k s c s', Inv ifs s -> stack s <> [] -> stack_ok s
   Inv ifs s' /\ stack_ok s' /\ SG s' /\ (forall nxt, hist ifs nxt (pcc s') (syms s')) /\ vle (vf s) (vf s') /\ NSI s'.
 Proof.
   intros k s c s' I St SO Sg G Hf Gv Uk Hh Ns0 Ein.
-  destruct (inner_hist_k ifs 0%Z k s c s') as (A1 & A2 & A3 & A4 & A5 & A6 & _); auto.
+  destruct (inner_hist_k ifs (0%Z, 0) k s c s') as (A1 & A2 & A3 & A4 & A5 & A6 & _); auto.
   split; auto.
 Qed.
 
@@ -824,23 +863,29 @@ Proof.
     destruct (inner_hist_k ifs n nf s c s1) as (I1 & SO1 & Sg1 & H1 & M1 & N1 & V1 & Kk1); auto. { rewrite St. discriminate. }
     destruct (IH s1 s' I1 SO1 Sg1 H1 N1 E) as (A5 & A6 & A7).
     split; auto. split; [auto|]. intros K0. apply A7. apply Kk1.
-    intros E0. destruct (K0 E0) as (Kn & Kg & _ & Kc). unfold CNT in *. rewrite St in *. cbn [tl] in *.
+    intros E0. destruct (K0 E0) as (Kn & Kg & _ & Kc). rewrite St in Kn, Kg. rewrite St. cbn [tl] in *.
     inversion Kn as [|a l Hnin Hnd]. split; [exact Hnd|]. split; [exact Kg|]. split; [exact Hnin|exact Kc].
 Qed.
 
-Lemma from_corner_hist_k ifs n s c s' : Inv ifs s -> gate_ok (vv s) c -> gatev (vf s) c ->
+Lemma from_corner_hist_k ifs s c s' : Inv ifs s -> gate_ok (vv s) c -> gatev (vf s) c ->
   (forall nxt, hist ifs nxt (pcc s) (syms s)) -> NSI s -> nth (c / 3) (vf s) false = false ->
-  from_corner c2v opp hid s (Some c) = EOk s' ->
-  (evs s = [] -> (1 = ideal (syms s) + n)%Z) -> evs s' = [] -> (0 = ideal (syms s') + n)%Z.
+  from_corner c2v opp hid s (Some c) = EOk s' -> evs s' = [] ->
+  evs s = [] /\ forall Yn, syms s' = Yn ++ syms s -> BALC Yn.
 Proof.
-  intros I G Gv Hh Ns Hf E Hn E0. unfold from_corner in E.
+  intros I G Gv Hh Ns Hf E E0. unfold from_corner in E.
+  set (n := ((1 - ideal (syms s))%Z, length (syms s))).
   destruct (outer_hist_k ifs n (outer_fuel c2v) (with_stack s [Some c]) s') as (A5 & A6 & A7); [apply Inv_stack; auto| | |exact Hh|exact Ns|exact E|].
   - unfold stack_ok, EbEncoder_proofs.stack_ok. cbn [with_stack stack vv]. constructor; auto.
   - unfold SG. cbn [with_stack stack vf]. constructor; auto.
-  - assert (K0 : KO n (with_stack s [Some c])).
+  - split; [exact (A6 E0)|].
+    assert (K0 : KO n (with_stack s [Some c])).
     { intros E1. cbn [with_stack stack tl vf evs] in *. split; [constructor; [intros []|constructor]|]. split; [constructor|].
-      split; [intros top r Q; injection Q as <- _; exists c; auto|]. unfold CNT. cbn [with_stack stack syms length]. apply Hn. exact E1. }
-    destruct (A7 K0 E0) as (_ & _ & _ & Kc). unfold CNT in Kc. rewrite A5 in Kc. cbn [length] in Kc. lia.
+      split; [intros top r Q; injection Q as <- _; exists c; auto|]. unfold CNT, n. cbn [with_stack stack syms length fst snd].
+      split; [lia|]. intros m Hm Hl. lia. }
+    destruct (A7 K0 E0) as (_ & _ & _ & (Kc & Kp)). rewrite A5 in Kc. cbn [length fst snd n] in Kc, Kp.
+    intros Yn EY. rewrite EY in Kc, Kp. rewrite ideal_app in Kc. split; [lia|].
+    intros m Hm. specialize (Kp m ltac:(lia)). rewrite app_length in Kp. specialize (Kp ltac:(lia)).
+    rewrite skipn_app in Kp. replace (m - length Yn) with 0 in Kp by lia. cbn [skipn] in Kp. rewrite ideal_app in Kp. lia.
 Qed.
 
 (** what a run appends to the history *)
@@ -917,12 +962,13 @@ Definition IDJ (inits : list nat) : Prop :=
     forall x1 x2, x1 < 3 * nf -> x2 < 3 * nf -> x1 / 3 = ic1 / 3 -> x2 / 3 = ic2 / 3 -> vtx c2v x1 <> vtx c2v x2.
 
 (** with one start-face bit and no split event: #E = #S + 1 *)
-Definition CNTE (bits : list bool) (s : est) : Prop :=
-  (bits = [] -> syms s = []) /\ (length bits = 1 -> evs s = [] -> syms s = [] \/ ideal (syms s) = 0%Z).
+Definition CNTE (bits : list bool) (inits : list nat) (s : est) : Prop :=
+  (evs s = [] -> ideal (syms s) = (1 - Z.of_nat (length bits))%Z) /\
+  RUNS2 opp IFc (evs s = []) bits inits (pcc s) (syms s).
 Definition ECH (st : eres (est * list bool * list nat)) : Prop :=
   forall s bits inits, st = EOk (s, bits, inits) ->
     (forall nxt, hist (faces (rev inits)) nxt (pcc s) (syms s)) /\ NSI s /\
-    RUNS opp IFc bits inits (pcc s) (syms s) /\ IDJ inits /\ CNTE bits s.
+    RUNS opp IFc bits inits (pcc s) (syms s) /\ IDJ inits /\ CNTE bits inits s.
 
 Lemma ec_corner_hist done st c_id : c_id < 3 * nf -> ECinv c2v opp nf nv nh done st -> ECH st -> ECH (ec_corner c2v opp hid st c_id).
 Proof.
@@ -1012,9 +1058,15 @@ Proof.
     destruct (from_corner_hist _ s1 oc s' I1 Go) as (R1 & R2 & R3 & R4); auto.
     destruct (from_corner_block _ s1 oc s' I1 Go Gvo H1 Ns1 Eov E') as (Pn & Yn & K1 & K2 & K3 & K4 & K5 & K6).
     intros s0 b0 i0 E. inversion E as [[X1 X2 X3]]. clear E. subst s0 b0 i0. split; [auto|]. split; [auto|]. split; [|split].
-    3:{ split; [discriminate|]. intros Lb E0. cbn [length] in Lb. assert (Eb : bits = []) by (destruct bits; [auto|cbn in Lb; lia]).
-        right. pose proof (from_corner_hist_k _ 0%Z s1 oc s' I1 Go Gvo H1 Ns1 Eov E') as Cn.
-        rewrite !Z.add_0_r in Cn. symmetry. apply Cn; auto. intros _. cbn [s1 with_vf with_vv syms]. rewrite (proj1 HC Eb). reflexivity. }
+    3:{ assert (EvM : evs s' = [] -> evs s = [] /\ BALC Yn).
+        { intros E0. destruct (from_corner_hist_k _ s1 oc s' I1 Go Gvo H1 Ns1 Eov E' E0) as (M1 & M2). split; [exact M1|]. apply M2. exact K2. }
+        split.
+        - intros E0. destruct (EvM E0) as (M1 & (B1 & _)). rewrite K2, ideal_app, B1. cbn [s1 with_vf with_vv syms length]. rewrite (proj1 HC M1). lia.
+        - rewrite K1, K2. cbn [s1 with_vf with_vv pcc syms]. apply (R2_run opp IFc _ true bits inits (next_c start :: inits)); auto.
+          + apply (RUNS2_impl opp IFc IFc (evs s = [])); [auto|intros E0; apply (EvM E0)|apply HC].
+          + intros E0. apply (EvM E0).
+          + exists (next_c start). split; auto. split; [rewrite K5; auto|]. split; [apply next_lt; auto|].
+            intros x Hx Fx. rewrite next_face, HI in Fx. destruct (HIall x Hx Fx). auto. }
     { rewrite K1, K2. cbn [s1 with_vf with_vv pcc syms]. apply (R_run opp IFc true bits inits (next_c start :: inits)); auto.
       exists (next_c start). split; auto. split; [rewrite K5; auto|]. split; [apply next_lt; auto|].
       intros x Hx Fx. rewrite next_face, HI in Fx. destruct (HIall x Hx Fx). auto. }
@@ -1063,9 +1115,13 @@ Proof.
     destruct (from_corner_block _ s1 start s' I1 Gs Gvs Hh Ns1 Us E') as (Pn & Yn & K1 & K2 & K3 & K4 & K5 & K6).
     intros s0 b0 i0 E. inversion E as [[X1 X2 X3]]. clear E. subst s0 b0 i0. split; [auto|]. split; [auto|]. split; [|split; [auto|]].
     { rewrite K1, K2. cbn [s1 with_vhole with_vv pcc syms]. apply (R_run opp IFc false bits inits inits); auto. }
-    split; [discriminate|]. intros Lb E0. cbn [length] in Lb. assert (Eb : bits = []) by (destruct bits; [auto|cbn in Lb; lia]).
-    right. pose proof (from_corner_hist_k _ 0%Z s1 start s' I1 Gs Gvs Hh Ns1 Us E') as Cn.
-    rewrite !Z.add_0_r in Cn. symmetry. apply Cn; auto. intros _. cbn [s1 with_vhole with_vv syms]. rewrite (proj1 HC Eb). reflexivity.
+    assert (EvM : evs s' = [] -> evs s = [] /\ BALC Yn).
+    { intros E0. destruct (from_corner_hist_k _ s1 start s' I1 Gs Gvs Hh Ns1 Us E' E0) as (M1 & M2). split; [exact M1|]. apply M2. exact K2. }
+    split.
+    + intros E0. destruct (EvM E0) as (M1 & (B1 & _)). rewrite K2, ideal_app, B1. cbn [s1 with_vhole with_vv syms length]. rewrite (proj1 HC M1). lia.
+    + rewrite K1, K2. cbn [s1 with_vhole with_vv pcc syms]. apply (R2_run opp IFc _ false bits inits inits); auto.
+      * apply (RUNS2_impl opp IFc IFc (evs s = [])); [auto|intros E0; apply (EvM E0)|apply HC].
+      * intros E0. apply (EvM E0).
 Qed.
 
 Lemma ec_fold_hist l : Forall (fun c => c < 3 * nf) l -> forall done st, ECinv c2v opp nf nv nh done st -> ECH st ->
@@ -1084,7 +1140,7 @@ Theorem encode_hist vh niso ndeg o : length vh = nh ->
     o_syms o = rev (syms s) /\ o_events o = rev (evs s) /\ o_bits o = rev bits /\ o_pcc o = pcc s ++ rev inits /\
     Inv (faces (rev inits)) s /\ Forall (fun c => c < 3 * nf) inits /\ length inits = count_occ bool_dec bits true /\
     (forall nxt, hist (faces (rev inits)) nxt (pcc s) (syms s)) /\ NSI s /\
-    RUNS opp IFc bits inits (pcc s) (syms s) /\ IDJ inits.
+    RUNS opp IFc bits inits (pcc s) (syms s) /\ IDJ inits /\ CNTE bits inits s.
 Proof.
   intros Lh FH E. unfold eb_encode in E. rewrite NF_eq in E. destruct (nf =? ndeg); [discriminate|]. rewrite FH in E. cbn [ebind] in E.
   rewrite (NC_eq c2v nf Hlen) in E.
@@ -1096,12 +1152,12 @@ Proof.
   assert (H0 : ECH (EOk (init_est nf nv vh, @nil bool, @nil nat))).
   { intros s b i X. inversion X as [[Y1 Y2 Y3]]. cbn. split; [intros; constructor|].
     split; [split; [intros _; auto|intros v Hv0; cbn [init_est vv] in Hv0; rewrite nth_repeat_false in Hv0; discriminate]|]. split; [constructor|].
-    split; [intros m1 m2 ic1 ic2 _ Z1; destruct m1; discriminate|]. split; [reflexivity|intros; left; reflexivity]. }
+    split; [intros m1 m2 ic1 ic2 _ Z1; destruct m1; discriminate|]. split; [intros _; reflexivity|constructor]. }
   pose proof (ec_fold_ok c2v opp nf nv nh hid Hlen OK Hv Hhl Hhr Hhb EH FI ENDH FANC _ Fa [] _ I0) as (s & bits & inits & Ef & I & Fi & Cb & CL & DN & T3).
   pose proof (ec_fold_hist _ Fa [] _ I0 H0 s bits inits Ef) as (Hh & Ns & HR & HD & HC).
   rewrite Ef in E. cbn [ebind] in E. inversion E; subst o. cbn [o_syms o_events o_bits o_pcc].
   exists s, bits, inits. split; [reflexivity|]. split; [reflexivity|]. split; [reflexivity|]. split; [reflexivity|].
-  split; [exact I|]. split; [exact Fi|]. split; [exact Cb|]. split; [exact Hh|]. split; [exact Ns|]. split; [exact HR|exact HD].
+  split; [exact I|]. split; [exact Fi|]. split; [exact Cb|]. split; [exact Hh|]. split; [exact Ns|]. split; [exact HR|]. split; [exact HD|exact HC].
 Qed.
 
 (** one start-face bit, no split event: #E = #S + 1 over the output symbols *)
@@ -1120,13 +1176,13 @@ Proof.
   assert (H0 : ECH (EOk (init_est nf nv vh, @nil bool, @nil nat))).
   { intros s b i X. inversion X as [[Y1 Y2 Y3]]. cbn. split; [intros; constructor|].
     split; [split; [intros _; auto|intros v Hv0; cbn [init_est vv] in Hv0; rewrite nth_repeat_false in Hv0; discriminate]|]. split; [constructor|].
-    split; [intros m1 m2 ic1 ic2 _ Z1; destruct m1; discriminate|]. split; [reflexivity|intros; left; reflexivity]. }
+    split; [intros m1 m2 ic1 ic2 _ Z1; destruct m1; discriminate|]. split; [intros _; reflexivity|constructor]. }
   pose proof (ec_fold_ok c2v opp nf nv nh hid Hlen OK Hv Hhl Hhr Hhb EH FI ENDH FANC _ Fa [] _ I0) as (s & bits & inits & Ef & I & Fi & Cb & CL & DN & T3).
   pose proof (ec_fold_hist _ Fa [] _ I0 H0 s bits inits Ef) as (_ & _ & _ & _ & HC).
   rewrite Ef in E. cbn [ebind] in E. inversion E; subst o. cbn [o_syms o_events o_bits o_pcc].
   intros Lb Ev. rewrite rev_length in Lb. rewrite rev_involutive.
   assert (Ev' : evs s = []) by (destruct (evs s) as [|e l]; [auto|apply (f_equal (@length _)) in Ev; rewrite rev_length in Ev; cbn in Ev; lia]).
-  destruct (proj2 HC Lb Ev') as [X|X]; [left; rewrite X; reflexivity|right; exact X].
+  right. rewrite (proj1 HC Ev'), Lb. reflexivity.
 Qed.
 
 Lemma nvis_of_vis P I k o : k < length P -> NoDup (faces (P ++ I)) -> vis_o (skipn (S k) P) (faces I) o -> nvis (P ++ I) k o.
@@ -1157,7 +1213,7 @@ Theorem encode_facts vh niso ndeg o : length vh = nh ->
   (forall m1 m2, m1 < m2 -> length Y + m2 < length Q -> forall x1 x2, x1 < 3 * nf -> x2 < 3 * nf ->
      x1 / 3 = nth (length Y + m1) Q 0 / 3 -> x2 / 3 = nth (length Y + m2) Q 0 / 3 -> vtx c2v x1 <> vtx c2v x2).
 Proof.
-  intros Lh FH E Q Y. destruct (encode_hist vh niso ndeg o Lh FH E) as (s & bits & inits & E1 & E2 & E3 & E4 & I & Fi & Cb & Hh & Ns & HR & HD).
+  intros Lh FH E Q Y. destruct (encode_hist vh niso ndeg o Lh FH E) as (s & bits & inits & E1 & E2 & E3 & E4 & I & Fi & Cb & Hh & Ns & HR & HD & _).
   pose proof (i_base _ _ _ _ _ _ I) as B0.
   destruct (hist_nth _ _ _ _ (Hh None)) as [Ln Fk].
   assert (EY : Y = syms s) by (unfold Y; rewrite E1, rev_involutive; auto).
@@ -1213,6 +1269,32 @@ Proof.
     apply (HD m1 m2 (nth m1 (rev inits) 0) (nth m2 (rev inits) 0)); auto; apply nth_error_nth'; rewrite rev_length; lia.
 Qed.
 
+(** the runs with their balance, and the count of the whole output, when no split event was recorded *)
+Theorem encode_runs2 vh niso ndeg o : length vh = nh ->
+  find_holes c2v opp nv = EOk (hid, vh) ->
+  eb_encode c2v opp nv niso ndeg = EOk o ->
+  let Q := o_pcc o in let Y := rev (o_syms o) in
+  (o_events o = [] -> ideal Y = (1 - Z.of_nat (length (o_bits o)))%Z) /\
+  RUNS2 opp (IFc' c2v opp nf) (o_events o = []) (rev (o_bits o)) (rev (skipn (length Y) Q)) (firstn (length Y) Q) Y.
+Proof.
+  intros Lh FH E Q Y. destruct (encode_hist vh niso ndeg o Lh FH E) as (s & bits & inits & E1 & E2 & E3 & E4 & I & Fi & Cb & Hh & Ns & HR & HD & HC1 & HC2).
+  assert (EY : Y = syms s) by (unfold Y; rewrite E1, rev_involutive; auto).
+  assert (EQ : Q = pcc s ++ rev inits) by (unfold Q; auto).
+  assert (LY : length Y = length (pcc s)) by (rewrite EY; apply (i_len _ _ _ _ _ _ I)).
+  assert (EvE : o_events o = [] -> evs s = []).
+  { rewrite E2. intros X. destruct (evs s) as [|e l]; [auto|]. apply (f_equal (@length _)) in X. rewrite rev_length in X. cbn in X. lia. }
+  split.
+  - intros Ev. rewrite EY, E3, rev_length. apply HC1. auto.
+  - rewrite E3, rev_involutive, EQ, LY, firstn_app, Nat.sub_diag, firstn_all, skipn_app, Nat.sub_diag, skipn_all. cbn [firstn skipn app].
+    rewrite app_nil_r, rev_involutive, EY. apply (RUNS2_impl opp IFc (IFc' c2v opp nf) (evs s = [])); auto.
+    intros ic (A1 & A2). split; auto. intros t Ht Ft. destruct (A2 t Ht Ft) as (B1 & B2). split; auto.
+    intros x Hx Nx Vx. split.
+    + intro X. destruct (Hhb (next_c x)) as [_ Y0]; auto. apply next_lt; auto. rewrite next_face; auto.
+      rewrite prev_next, Vx in Y0. congruence.
+    + intro X. destruct (Hhb (prev_c x)) as [Y0 _]; auto. apply prev_lt; auto. rewrite prev_face; auto.
+      rewrite next_prev, Vx in Y0. congruence.
+Qed.
+
 End Enc.
 
 (** for every well-formed table (C13's invariants as hypotheses) *)
@@ -1228,6 +1310,32 @@ Proof.
   { intros. apply FAN; auto; lia. }
   destruct (find_holes_ok c2v opp nf nv Hlen OK Hv) as (hid & vh & EH & I & B).
   apply (encode_cnt c2v opp nf nv (length vh) hid Hlen OK Hv) with (vh := vh) (niso := niso) (ndeg := ndeg); auto.
+  + apply I.
+  + apply I.
+  + intros j Hj Dj Oj. apply B. split; auto.
+  + intros v Hv0. destruct I as (_ & _ & I3). destruct (I3 v Hv0) as (j & (A1 & A2 & A3) & A4). exists j. auto.
+  + intros s c first. apply (encode_hole_ok c2v opp nf nv Hlen OK Hv FAN' hid vh I).
+  + intros f. apply (find_init_ok c2v opp nf nv Hlen OK Hv FAN' hid vh I).
+  + intros sf cl new vfl RP ND VN L. apply (run_end c2v opp nf hid Hlen OK FAN') with (sf := sf) (cl := cl) (new := new); auto.
+    intros j Hj Dj Oj. apply B. split; auto.
+  + intros vfl a b CL VN Ha Hb Da Db Ev Hvis. apply (fan_closed c2v opp nf hid Hlen OK FAN') with (a := a); auto.
+    intros j Hj Dj Oj. apply B. split; auto.
+Qed.
+
+Theorem encode_runs2_wf c2v opp nf nv niso ndeg o :
+  length c2v = 3 * nf -> opp_ok c2v opp -> (forall c, c < 3 * nf -> vtx c2v c < nv) -> one_fan c2v opp ->
+  eb_encode c2v opp nv niso ndeg = EOk o ->
+  let Q := o_pcc o in let Y := rev (o_syms o) in
+  (o_events o = [] -> ideal Y = (1 - Z.of_nat (length (o_bits o)))%Z) /\
+  RUNS2 opp (IFc' c2v opp nf) (o_events o = []) (rev (o_bits o)) (rev (skipn (length Y) Q)) (firstn (length Y) Q) Y.
+Proof.
+  intros Hlen OK Hv FAN E.
+  assert (FAN' : forall c c', c < 3 * nf -> c' < 3 * nf -> is_degenerated c2v (c / 3) = false ->
+     is_degenerated c2v (c' / 3) = false -> vtx c2v c = vtx c2v c' ->
+     reach (swing_right opp) c c' \/ reach (swing_right opp) c' c).
+  { intros. apply FAN; auto; lia. }
+  destruct (find_holes_ok c2v opp nf nv Hlen OK Hv) as (hid & vh & EH & I & B).
+  apply (encode_runs2 c2v opp nf nv (length vh) hid Hlen OK Hv) with (vh := vh) (niso := niso) (ndeg := ndeg); auto.
   + apply I.
   + apply I.
   + intros j Hj Dj Oj. apply B. split; auto.
